@@ -196,6 +196,33 @@ def reload_chain_leg(ctx, prop):
     return validate_scenarios(ctx, scs, json.load(open(outp)), prop)
 
 
+def full_queue_reload_leg(ctx, prop):
+    """The notification channel exactly full (32) while the hooks loop is held, then a reload, then the loop is let go: whichever
+    message it takes first, it must come back for the others - and the dispatcher must be answered again (used by C10)."""
+    H, R, C = {"t": "hold"}, {"t": "release"}, {"t": "change"}
+    S = lambda ms: {"t": "sleep", "ms": ms}
+    RL = lambda x: {"t": "reload", "s": x}
+    scs = [{"name": "agent-full-queue-reload-%d" % i, "agent": True,
+            "steps": [C, S(RATE_MS * 2), H, {"t": "burst", "n": 33}, RL("B"), R, S(RATE_MS * 3), C, S(RATE_MS * 2),
+                      H, {"t": "burst", "n": 33}, RL("A"), R, S(RATE_MS * 3), C]} for i in range(4)]
+    inp = os.path.join(ctx.scratch, "hooks-fullq.json")
+    outp = os.path.join(ctx.scratch, "hooks-fullq.out.json")
+    json.dump({"scenarios": scs, "entries": [], "killtest": False}, open(inp, "w"))
+    rc, out = ctx.run_inpkg("TestVerifHooks", env={"VERIF_IN": inp, "VERIF_OUT": outp, "VERIF_SCRATCH": os.path.join(ctx.scratch, "hooksfullq")}, timeout=120)
+    if rc != 0 or not os.path.exists(outp):
+        # the run did not end: the goroutine dump of the test's time limit shows where the real hooks loop and dispatcher stand
+        blocks = re.split(r"\n\n(?=goroutine \d+ \[)", out)
+        loop = [b for b in blocks if "(*HooksCaller).run" in b.split("\ncreated by")[0] and re.match(r"goroutine \d+ \[chan send", b)]
+        disp = [b for b in blocks if "dispatchRequests" in b.split("\ncreated by")[0] and re.match(r"goroutine \d+ \[chan send", b)]
+        if "test timed out" in out and loop:
+            ctx.violation(prop, "wedge:hooks-loop-blocked-in-a-channel-send", "the hooks loop is blocked sending on a channel (notification channel full, reload "
+                          "pending)%s: %s" % ("; the dispatcher is blocked sending to it" if disp else "", loop[0][:400]))
+            return 0
+        ctx.inconclusive.append("hooks full-queue driver failed (rc %s): %s" % (rc, out[-800:]))
+        return 0
+    return validate_scenarios(ctx, scs, json.load(open(outp)), prop)
+
+
 def run(ctx):
     thorough = ctx.tier == "thorough"
     cov = ctx.coverage
